@@ -13,9 +13,11 @@ import (
 	"path/filepath"
 	"runtime/debug"
 	"strings"
+	"syscall"
 
 	"github.com/zerx-lab/wordZero/pkg/document"
 	"github.com/zerx-lab/wordZero/pkg/markdown"
+	"github.com/zerx-lab/wordZero/pkg/verifrt"
 
 	"verif/foreign"
 	"verif/sim"
@@ -68,6 +70,7 @@ type World struct {
 	// ShortReads makes every restart through memory use a reader that
 	// returns 1..k bytes per Read (legal, must not change any result).
 	ShortReadRng *sim.Rand
+	FilePrefix   string // prefix of the file names this world saves under (tasks that share a directory)
 	nfile        int
 }
 
@@ -183,6 +186,8 @@ func (w *World) apply(ds *Doc, op sim.Op, o *Obs) {
 		ds.Paras, ds.Tables, ds.Images, ds.Dead = nil, nil, nil, false
 	case k == "save":
 		w.opSave(ds, op, o)
+	case k == "savefail": // I[0] = index of the file-system call of Save that fails (0 = the first); needs the instrumented copy
+		w.opSaveFail(ds, op, o)
 	case k == "restart":
 		w.opRestart(ds, op, o)
 	case k == "prestart":
@@ -238,7 +243,7 @@ func (w *World) apply(ds *Doc, op sim.Op, o *Obs) {
 
 func (w *World) newPath(ext string) string {
 	w.nfile++
-	return filepath.Join(w.Tmp, fmt.Sprintf("f%d%s", w.nfile, ext))
+	return filepath.Join(w.Tmp, fmt.Sprintf("%sf%d%s", w.FilePrefix, w.nfile, ext))
 }
 
 // Serialize saves through one of the two entry points and returns the bytes.
@@ -268,6 +273,41 @@ func (w *World) opSave(ds *Doc, op sim.Op, o *Obs) {
 	for _, ob := range w.Obsv {
 		ob.OnSave(w, ds, b)
 	}
+}
+
+// opSaveFail: Save(path) with the n-th file-system call failing (injected at
+// the file-system seam of the instrumented copy). Save must return an error;
+// the document must be as usable afterwards as if the call had not been made.
+func (w *World) opSaveFail(ds *Doc, op sim.Op, o *Obs) {
+	p := w.newPath(".docx")
+	n := int64(op.Int(0))
+	var seen int64
+	fired := false
+	prevHook, prevFault := verifrt.IOHook, verifrt.IOFault
+	verifrt.IOFault = func(kind, path string) error {
+		defer func() { seen++ }()
+		if seen == n {
+			fired = true
+			return syscall.EACCES
+		}
+		return nil
+	}
+	err := ds.D.Save(p)
+	verifrt.IOHook, verifrt.IOFault = prevHook, prevFault
+	os.Remove(p)
+	if !fired {
+		o.Res = "no-fault" // the build has no file-system seam, or Save made fewer calls
+		if err == nil {
+			w.Stats.Probe("savefail_not_fired")
+		}
+		return
+	}
+	w.Stats.Fault("IO-call-fails")
+	if err == nil {
+		o.Res = "nil-despite-failed-call"
+		return
+	}
+	o.Res = "failed-as-it-must"
 }
 
 // shortReader returns 1..k bytes per Read.
